@@ -130,7 +130,7 @@ def make_scenario(scripts, restart_limit, extra_mode, max_controls):
                 rec["t"] = loop.time()
                 rec["snapshot"] = snapshot()
                 rec["seq"] = len(log)
-                log.append(("control", kind, loop.time()))
+                log.append(("control", kind, loop.time(), bool(rec.get("final"))))
                 await (actor.stop() if kind == "stop" else actor.wait())
 
             def do(kind):
@@ -266,7 +266,8 @@ def make_scenario(scripts, restart_limit, extra_mode, max_controls):
                     continue
                 ep_start = max([kk for kk, x in enumerate(log[:k]) if x[0] == "epoch"], default=0)
                 cancel_before = any(x[0] == "control" and x[1] in ("cancel", "stop") for x in log[ep_start:k])
-                later_cancel = [x for x in log[k:] if x[0] == "control" and x[1] in ("cancel", "stop")]
+                # (the final stop() is only issued once no timer is left, so it cannot pre-empt a pending restart)
+                later_cancel = [x for x in log[k:] if x[0] == "control" and x[1] in ("cancel", "stop") and not (len(x) > 3 and x[3])]
                 n_prior_restarts = sum(1 for kk, ee in ends if ep_start <= kk < k and ee[3] == "exc")
                 if cancel_before or (restart_limit is not None and n_prior_restarts >= restart_limit):
                     continue
@@ -277,6 +278,14 @@ def make_scenario(scripts, restart_limit, extra_mode, max_controls):
                 C["reinvoked_after_every_exception"] = C.get("reinvoked_after_every_exception", 0) + 1
                 if not any(x[0] == "run_start" for x in log[k:]):
                     viol.append(("reinvoked_after_every_exception", {"failed_at": e[2], "log_tail": log[k:][:6]}))
+            # start() on an actor that is not running invokes the run logic at once (unless it is cancelled first)
+            for k, e in enumerate(log):
+                if e[0] != "epoch":
+                    continue
+                nxt = next((x for x in log[k + 1:] if x[0] == "run_start" or (x[0] == "control" and x[1] in ("cancel", "stop"))), None)
+                C["start_invokes_run_logic"] = C.get("start_invokes_run_logic", 0) + 1
+                if nxt is None or (nxt[0] == "run_start" and nxt[2] > e[1] + 1e-9):
+                    viol.append(("start_invokes_run_logic", {"started_at": e[1], "next": None if nxt is None else list(map(str, nxt[:3]))}))
             # --- stop()/wait() ---------------------------------------------------
             # errors count as surfaced when some stop()/wait() call raised them (the first waiter consumes them)
             surfaced_all = []
